@@ -65,7 +65,7 @@ Fixpoint remote_arrivals (resps : list (peer * resp)) : list (peer * val) :=
   end.
 
 (* routing.go:293-311: the standard client re-validates the local record;
-   fullrt/dht.go:850-858: the accelerated client does not.
+   fullrt/dht.go getValues: so does the accelerated client (since dea7c9c).
    [local] is what getLocal returned (ValueStore.Get: filed under k, not older
    than the maximum age -- C05). *)
 Definition local_std (self : peer) (local : option val) : list (peer * val) :=
@@ -75,7 +75,7 @@ Definition local_std (self : peer) (local : option val) : list (peer * val) :=
   end.
 Definition local_fullrt (self : peer) (local : option val) : list (peer * val) :=
   match local with
-  | Some v => [(self, v)]
+  | Some v => if valid k v then [(self, v)] else []
   | None => []
   end.
 
@@ -140,7 +140,8 @@ Definition merge_step (st : option val * list val) (v : val) : option val * list
   end.
 Definition merge (l : list val) : list val := rev (snd (fold_left merge_step l (None, []))).
 
-(* dual.GetValue: the WAN result unless the WAN search failed *)
+(* dual.GetValue: the WAN result unless the WAN search failed (the priority that
+   property C15 specifies; best-of-both is not claimed for dual.GetValue) *)
 Definition dual_get_value (wan lan : option val) : option val :=
   match wan with
   | Some v => Some v
